@@ -571,18 +571,30 @@ func ruleC01Mapper(c *Ctx) {
 				"a protocol column is converted against "+open+": a column past the line end runs across the line break into the following lines instead of clamping to the line end")
 		}
 	}
-	c.census("C01-CONV", "conversions of a protocol column in the module", nAll, 3)
-	// line past the end maps to the end of the document
+	c.census("C01-CONV", "conversions of a protocol column in the module", nAll, 1)
+	// line past the end maps to the end of the document: a return of len(text) that is controlled by a comparison
+	// against the number of lines (made in the function or by a helper whose verdict is tested)
 	guard := false
 	for _, b := range toByte.Blocks {
 		for _, ins := range b.Instrs {
 			if r, ok := ins.(*ssa.Return); ok && len(r.Results) == 1 {
-				if call, ok := r.Results[0].(*ssa.Call); ok {
+				if call, ok := unspillResult(r.Results[0], b).(*ssa.Call); ok {
 					if bi, ok := call.Call.Value.(*ssa.Builtin); ok && bi.Name() == "len" {
-						for _, cond := range controlConds(b) {
-							if bin, ok := cond.(*ssa.BinOp); ok && (bin.Op == token.GEQ || bin.Op == token.GTR) {
-								guard = true
+						if condSliceHas(b, func(i ssa.Instruction) bool {
+							bin, ok := i.(*ssa.BinOp)
+							if !ok || (bin.Op != token.GEQ && bin.Op != token.GTR && bin.Op != token.LSS && bin.Op != token.LEQ) {
+								return false
 							}
+							for _, o := range []ssa.Value{bin.X, bin.Y} {
+								if lc, ok := o.(*ssa.Call); ok {
+									if lb, ok := lc.Call.Value.(*ssa.Builtin); ok && lb.Name() == "len" {
+										return true
+									}
+								}
+							}
+							return false
+						}) {
+							guard = true
 						}
 					}
 				}
@@ -591,34 +603,66 @@ func ruleC01Mapper(c *Ctx) {
 	}
 	c.check(guard, "C01-CONV", funcName(toByte), "line past the end maps to the end of the document", toByte.Pos(), "`line >= len(lines)` returns len(content)", "no guard for a line number past the last line")
 	// C01-CLAMP: both slice bounds of the splice depend on both converted positions (ordering swap) and on len(content)
-	nSl := 0
-	for _, b := range apply.Blocks {
-		for _, ins := range b.Instrs {
-			sl, ok := ins.(*ssa.Slice)
-			if !ok || types.TypeString(sl.X.Type(), nil) != "string" {
-				continue
-			}
-			for _, bound := range []ssa.Value{sl.Low, sl.High} {
-				if bound == nil {
-					continue
-				}
-				nSl++
-				bs := backSlice(bound)
-				nConv := 0
-				hasLen := false
-				for v := range bs {
-					if call, ok := v.(*ssa.Call); ok {
-						if cal := call.Common().StaticCallee(); cal == toByte {
-							nConv++
-						}
-						if bi, ok := call.Call.Value.(*ssa.Builtin); ok && bi.Name() == "len" {
-							hasLen = true
+	// (clamp); the splice may be written in the applier or in a helper it calls
+	region := map[*ssa.Function]bool{apply: true}
+	for changed := true; changed; {
+		changed = false
+		for f := range region {
+			for _, b := range f.Blocks {
+				for _, ins := range b.Instrs {
+					if call, ok := ins.(ssa.CallInstruction); ok {
+						if cal := call.Common().StaticCallee(); cal != nil && cal.Pkg == lpk && cal.Blocks != nil && cal != toByte && !region[cal] && !strings.Contains(funcName(cal), "UTF16") {
+							region[cal] = true
+							changed = true
 						}
 					}
 				}
-				c.check(nConv >= 2 && hasLen, "C01-CLAMP", funcName(apply), "splice bound ordered and clamped", sl.Pos(),
-					"the bound depends on both converted positions (start/end swap) and on len(content) (clamp)",
-					fmt.Sprintf("a splice bound of the ranged change is not protected by the start/end ordering swap and the len(content) clamp (depends on %d converted positions, len: %v): a malformed range panics or splices the wrong part", nConv, hasLen))
+			}
+		}
+	}
+	var regionFns []*ssa.Function
+	for f := range region {
+		regionFns = append(regionFns, f)
+	}
+	sort.Slice(regionFns, func(i, j int) bool { return funcName(regionFns[i]) < funcName(regionFns[j]) })
+	nSl := 0
+	for _, f := range regionFns {
+		for _, b := range f.Blocks {
+			for _, ins := range b.Instrs {
+				sl, ok := ins.(*ssa.Slice)
+				if !ok || types.TypeString(sl.X.Type(), nil) != "string" {
+					continue
+				}
+				for _, bound := range []ssa.Value{sl.Low, sl.High} {
+					if bound == nil {
+						continue
+					}
+					var bs map[ssa.Value]bool
+					if f == apply {
+						bs = backSlice(bound)
+					} else {
+						bs = sliceUp(ciC, bound, f)
+					}
+					nConv := 0
+					hasLen := false
+					for v := range bs {
+						if call, ok := v.(*ssa.Call); ok {
+							if cal := call.Common().StaticCallee(); cal == toByte {
+								nConv++
+							}
+							if bi, ok := call.Call.Value.(*ssa.Builtin); ok && bi.Name() == "len" {
+								hasLen = true
+							}
+						}
+					}
+					if f != apply && nConv == 0 {
+						continue // a helper slicing something else
+					}
+					nSl++
+					c.check(nConv >= 2 && hasLen, "C01-CLAMP", funcName(f), "splice bound ordered and clamped", sl.Pos(),
+						"the bound depends on both converted positions (start/end swap) and on len(content) (clamp)",
+						fmt.Sprintf("a splice bound of the ranged change is not protected by the start/end ordering swap and the len(content) clamp (depends on %d converted positions, len: %v): a malformed range panics or splices the wrong part", nConv, hasLen))
+				}
 			}
 		}
 	}
